@@ -4,7 +4,7 @@ from ref import pools, zkp, surjection as sj
 
 ID = "C11"
 LEVEL = "exploration"
-CONFIGS = {"quick": ["san"], "thorough": ["san", "san_nv", "mx_i64"]}
+CONFIGS = {"quick": ["san", "mx_i64"], "thorough": ["san", "san_nv", "mx_i64"]}
 RULE = ("initialize for input counts 1..256 x subset sizes (all pairs for n <= 8, boundary and sampled above, always 255 / 256), the matching input at every "
         "position and with multiplicity 1..3, several seeds and iteration limits (incl. 0 and 1); generate + verify with matching keys, blinding keys "
         "0 / n-1 / >= n, an input equal to the output; verify on library proofs and reference-prover proofs with small forged scalars and their s+n "
@@ -249,7 +249,7 @@ def wl_parser(ctx, config):
         pcase(pools.rbytes(rng, L), "random_short")
 
 def run(ctx):
-    for config in ctx.configs:
+    for config in ctx.cfgs():
         wl_initialize(ctx, config)
         wl_generate(ctx, config)
         wl_refprover(ctx, config)
